@@ -201,6 +201,31 @@ def dnf_common(dnf):
     return tuple(l for l in dnf[0] if all(l in c for c in dnf))
 
 
+class _View:
+    """A view of a constant dict (keys / values / items) as a constant: iterable, comparable by content (the views themselves compare by identity)."""
+
+    def __init__(self, kind, view):
+        self.kind, self.elems = kind, tuple(view)
+
+    def __iter__(self):
+        return iter(self.elems)
+
+    def __len__(self):
+        return len(self.elems)
+
+    def __eq__(self, o):
+        return isinstance(o, _View) and (self.kind, self.elems) == (o.kind, o.elems)
+
+    def __hash__(self):
+        try:
+            return hash((self.kind, self.elems))
+        except TypeError:
+            return hash((self.kind, len(self.elems)))
+
+    def __repr__(self):
+        return f"{self.kind}({list(self.elems)!r})"
+
+
 class _Term:
     """A term standing where a Python value is expected (the single element of a display being unrolled)."""
 
@@ -249,6 +274,7 @@ class SymEval:
         self._inline_stack = []  # [(FuncInfo, returns list)]
         self._lid_prefix = ""
         self._loops: list = []
+        self._stable_found = None
         self._jump_targets: list = []  # what break / continue refer to: the innermost loop, or the current iteration of a loop being unrolled
         self._trys: list = []
         self._handler = None
@@ -413,6 +439,28 @@ class SymEval:
             v = self.expr(s.value, st) if s.value is not None else const(None)
             if self._inline_stack:
                 self._inline_stack[-1][1].append((st.dnf, v, dict(st.env)))
+            elif v[0] == "ite" and _some_const_leaf(v) and _ite_depth({"v": v}) <= 4:
+                # a status chosen on earlier tests and returned at a single exit is the early-return form: one return per alternative, under its tests
+                def split(t, state):
+                    if t[0] != "ite":
+                        self._effect("return", s, t, state)
+                        return
+                    for pol, sub in ((True, t[2]), (False, t[3])):
+                        if (t[1], not pol) in state.guards or neg_lit((t[1], pol)) in state.guards:
+                            continue
+                        s2 = state.copy()
+                        s2.assume(t[1], pol)
+                        split(sub, s2)
+
+                split(v, st)
+            elif v[0] in ("and", "or"):
+                # a conjunction / disjunction of tests returned as the result (`return status is True` with the status chosen on earlier tests):
+                # `return True` where it holds, `return False` where it does not
+                for pol in (True, False):
+                    s2 = st.copy()
+                    s2.assume(v, pol)
+                    if s2.dnf:
+                        self._effect("return", s, const(pol), s2)
             else:
                 self._effect("return", s, v, st)
             st.dead = "return"
@@ -528,6 +576,10 @@ class SymEval:
                     c = self.negate(c[1])
                     continue
                 return const(a)
+            if c[0] == "ite" and _some_const_leaf(c) and not _const_leaves(c):
+                # a flag with a default (`bad = False; if v: bad = bool(x)` then `if bad:`): decided on the constant alternatives, the truth of the
+                # others on theirs
+                return self._bool_tree(c, bool, other=lambda t: self.cond(t[3][0] if t[0] == "call" and t[2] == ("builtin", "bool") and len(t[3]) == 1 and not t[4] else t))
             if c[0] == "truth":
                 c = c[1]
                 continue
@@ -592,7 +644,45 @@ class SymEval:
             return b
         return ("ite", c, a, b)
 
+    # ---- loops: a variable that no continuing path of the body changes has its entry value at every iteration
+    def _mark(self):
+        return (len(self.effects), self.uid, {k: len(v) for k, v in self._loop_ends.items()}, {k: len(v) for k, v in self._tail_ends.items()},
+                {k: len(v) for k, v in self._snapshots.items()}, len(self.unsupported), [len(fr[1]) for fr in self._inline_stack])
+
+    def _rollback(self, mark):
+        ne, uid, le, te, sn, nu, inl = mark
+        del self.effects[ne:]
+        self.uid = uid
+        for d, lens in ((self._loop_ends, le), (self._tail_ends, te), (self._snapshots, sn)):
+            for k in list(d):
+                if k not in lens:
+                    del d[k]
+                else:
+                    del d[k][lens[k]:]
+        del self.unsupported[nu:]
+        for fr, n in zip(self._inline_stack, inl):
+            del fr[1][n:]
+
     def loop(self, s, st: State) -> State:
+        mark, st0 = self._mark(), st.copy()
+        self._stable_found = None
+        out = self._loop_once(s, st, None)
+        found = self._stable_found
+        self._stable_found = None
+        if found:
+            lid, pins = found
+            # second pass with those variables held at their entry values; the premise is re-established on that pass
+            self._rollback(mark)
+            out = self._loop_once(s, st0.copy(), pins)
+            again = self._stable_found
+            self._stable_found = None
+            if again is None or again[0] != lid or not (set(pins) <= set(again[1])):
+                self._rollback(mark)
+                out = self._loop_once(s, st0, {})
+                self._stable_found = None
+        return out
+
+    def _loop_once(self, s, st: State, pins) -> State:
         if isinstance(s, ast.While):
             d = _counter_while(s, self.func.node if self.func is not None else None, st.env)
             if d is not None:
@@ -649,7 +739,10 @@ class SymEval:
                 for sub, j, e in exits:
                     cur = self.merge(("left-by-break", sub, j), State(e.env, e.dnf, None), cur, base_dnf)
                 return cur
-        if isinstance(s, ast.While) and self.unroll and not s.orelse and not _has_break_continue(s.body):
+        test_names = {n_.id for n_ in ast.walk(s.test) if isinstance(n_, ast.Name)} if isinstance(s, ast.While) else set()
+        test_fields = any(isinstance(n_, ast.Attribute) for n_ in ast.walk(s.test)) if isinstance(s, ast.While) else False
+        if isinstance(s, ast.While) and self.unroll and not s.orelse and not _has_break_continue(s.body) and (test_fields or (test_names & assigned)):
+            # (a test that nothing in the body can change - `while True:` left by return - has no trip count to find)
             # constant-trip-count while loop: unroll as long as the test folds to a constant
             limit = self.unroll if isinstance(self.unroll, int) and not isinstance(self.unroll, bool) else 64
             trial = st.copy()
@@ -695,8 +788,9 @@ class SymEval:
                 if k.startswith("self.") and k[5:] not in self.frozen_fields and k != "self.*":
                     st.env[k] = ("loop", lid, k)
             st.env["self.*"] = ("in", lid)
-        fl = getattr(s, "_sa_flag_loop", None)
-        if fl is not None:
+        for n_, v_ in (pins or {}).items():
+            st.env[n_] = v_
+        for fl in getattr(s, "_sa_flags", None) or ([s._sa_flag_loop] if getattr(s, "_sa_flag_loop", None) else []):
             # a flag loop rewritten to its break form (threadflags): the flag has its continue value at every entry to the head
             st.env[fl[0]] = const(fl[1])
             info["flag"] = fl
@@ -731,6 +825,23 @@ class SymEval:
         self._loops.pop()
         self._jump_targets.pop()
         self._tail_stack.pop()
+        if pins != {}:
+            # variables written only on paths that leave the loop: every continuing end (fall-through, continue) still has the value of the head
+            cont = ([] if body_st.dead else [body_st]) + [x for k_, x in info["ends"] if k_ == "continue"]
+            stable = {}
+            for n_ in assigned:
+                if "." in n_ or n_ in split:
+                    continue
+                pv = pre.env.get(n_)
+                hv = (pins or {}).get(n_, ("loop", lid, n_))
+                if pv is not None and _const_display(pv) and (pins is None or n_ in pins) and all(e_.env.get(n_) == hv for e_ in cont):
+                    stable[n_] = pv
+            if isinstance(s, ast.For):
+                for t_ in ast.walk(s.target):
+                    if isinstance(t_, ast.Name):
+                        stable.pop(t_.id, None)
+            self._stable_found = (lid, stable) if stable else None
+            info["pinned"] = dict(pins or {})
         out = State(dict(st.env), pre.dnf, None)
         for n in assigned:
             out.env[n] = ("loopout", lid, n)
@@ -841,6 +952,8 @@ class SymEval:
             return ("func", f"{v.module}.{v.name}") if v.kind == "function" else ("class", f"{v.module}.{v.name}")
         if isinstance(v, (dict, list, set)):
             return ("gval", _Box(v))
+        if isinstance(v, (type({}.keys()), type({}.values()), type({}.items()))):
+            return const(_View(type(v).__name__, v))  # a dict view as a constant that compares by content
         if isinstance(v, tuple):
             try:
                 hash(v)
@@ -1153,6 +1266,9 @@ class SymEval:
         return top(type(e).__name__)
 
     def index(self, base, idx):
+        if idx[0] == "elem" and idx[1] == base and base[0] == "gval" and isinstance(base[1].v, dict):
+            # D[k] for k ranging over the constant dict D itself is the corresponding element of D.values()
+            return ("elem", self.lift(base[1].v.values()), idx[2])
         if base[0] == "upd" and base[1][0] in ("dict", "upd"):
             # reading back a key of a dict that was just built item by item: the value stored last under that key
             if idx == base[2]:
@@ -1234,6 +1350,11 @@ class SymEval:
         return ("bin", sym, a, b)
 
     def cmp(self, sym, a, b):
+        if sym in ("is", "==", "is not", "!=") and is_const(b) and isinstance(b[1], bool) and a[0] in ("cmp", "not", "and", "or", "truth", "sel"):
+            # a comparison result is a bool: `c is True` is c, `c is False` its negation
+            pos = (sym in ("is", "==")) == b[1]
+            c_ = a[1] if a[0] == "truth" else a
+            return c_ if pos else self.negate(c_)
         if is_const(a) and is_const(b):
             try:
                 return const(bool(_CMPFN[sym](a[1], b[1])))
@@ -1264,7 +1385,7 @@ class SymEval:
                 if x[0] == "ite" and is_const(y) and _some_const_leaf(x):
                     # a default chosen on an earlier test (`n = 0` in the handler, `n = int(s)` otherwise): the comparison is decided on the constant
                     # alternatives and stays a comparison on the others
-                    return self._bool_tree(x, lambda k: (_CMPFN[sym](k, y[1]) if left else _CMPFN[sym](y[1], k)), other=lambda t: ("cmp", sym, t, y) if left else ("cmp", sym, y, t))
+                    return self._bool_tree(x, lambda k: (_CMPFN[sym](k, y[1]) if left else _CMPFN[sym](y[1], k)), other=lambda t: self.cmp(sym, t, y) if left else self.cmp(sym, y, t))
         if sym in ("in", "not in") and is_const(b) and isinstance(b[1], (tuple, list, set, frozenset)) and len(b[1]) == 1:
             return self.cmp("==" if sym == "in" else "!=", a, self.lift(next(iter(b[1]))))  # membership in a one-element constant
         if sym in ("in", "not in") and is_const(a) and b[0] == "gval":
@@ -1409,6 +1530,8 @@ class SymEval:
         if f[0] == "attr" and f[1][0] == "builtin" and f[1][1] in ("int", "bytes", "str") and args and f[2] in ("to_bytes", "bit_length", "hex", "decode", "strip", "split", "rsplit", "startswith", "endswith"):
             # the unbound-method form T.m(x, ...) of x.m(...) for a value of the builtin type T
             recv, f, args = args[0], ("attr", args[0], f[2]), args[1:]
+        if f == ("builtin", "bool") and len(args) == 1 and not kwargs and not is_const(args[0]):
+            return ("truth", args[0])  # bool(x) is the truth of x (the form `not not x` has): no call of its own
         # ---- pure folding on constants
         if f[0] == "builtin" and f[1] in PURE_BUILTINS and PURE_BUILTINS[f[1]] and not kwargs and all(is_const(a) for a in args):
             try:
@@ -1578,6 +1701,11 @@ def _const_leaves(t, depth=0) -> bool:
     return t[0] == "ite" and depth < 12 and _const_leaves(t[2], depth + 1) and _const_leaves(t[3], depth + 1)
 
 
+def _const_display(t) -> bool:
+    """A constant, or a tuple display of constants (`result = (None, None)`)."""
+    return is_const(t) or (t[0] == "tuple" and len(t[1]) <= 4 and all(is_const(x) for x in t[1]))
+
+
 def _ite_depth(env) -> int:
     """Deepest nesting of alternatives among the values of an environment (shared sub-terms visited once)."""
     memo: dict = {}
@@ -1603,10 +1731,30 @@ def _some_const_leaf(t, depth=0) -> bool:
 
 def _ite_under(t, guards):
     """Drop the alternatives of a gated term that the literals of the path condition exclude."""
+    def holds(c, want=True):
+        """Whether the literals decide the condition `c` to be `want` (True), to be the opposite (False), or do not say (None)."""
+        if c[0] == "and":
+            rs = [holds(x, True) for x in c[1]]
+            r = True if all(x is True for x in rs) else (False if any(x is False for x in rs) else None)
+        elif c[0] == "or":
+            rs = [holds(x, True) for x in c[1]]
+            r = True if any(x is True for x in rs) else (False if all(x is False for x in rs) else None)
+        elif c[0] == "not":
+            r0 = holds(c[1], True)
+            r = None if r0 is None else not r0
+        elif (c, True) in guards or neg_lit((c, False)) in guards:
+            r = True
+        elif (c, False) in guards or neg_lit((c, True)) in guards:
+            r = False
+        else:
+            r = None
+        return r if want or r is None else not r
+
     while t[0] == "ite":
         c = t[1]
-        pos = (c, True) in guards
-        neg = (c, False) in guards or neg_lit((c, True)) in guards
+        h = holds(c)
+        pos = h is True
+        neg = h is False
         if pos:
             t = t[2]
         elif neg:
@@ -1842,6 +1990,19 @@ def _inline_call_impl(self, callee, f, args, kwargs, st):
     if ret_dnf:
         st.dnf = ret_dnf
     res = _build_gated(flat, base_len) if len({v for _, v in flat}) > 1 else flat[0][1]
+    if res is None and len(flat) <= 12:
+        # no single literal separates the alternatives (a disjunctive test in the helper): the first alternative whose whole path condition holds -
+        # the paths are mutually exclusive and cover every return
+        common = set(st.guards)
+
+        def conj_term(conj):
+            lits = [l for l in conj if l not in common]
+            ts = [c if pol else self.negate(c) for c, pol in lits]
+            return ts[0] if len(ts) == 1 else (("and", tuple(ts)) if ts else const(True))
+
+        res = flat[-1][1]
+        for conj, v in reversed(flat[:-1]):
+            res = self.ite(conj_term(conj), v, res)
     if res is None:
         res = ("phi", tuple(v for _, v in flat))
     elif res[0] == "ite" and all(is_const(v) for _, v in flat):
@@ -1888,6 +2049,14 @@ def may_raise_stmt(s) -> bool:
     if isinstance(s, ast.Assign) and all(isinstance(t, ast.Name) for t in s.targets) and isinstance(s.value, (ast.Constant, ast.Name)):
         return False
     if isinstance(s, ast.Expr) and isinstance(s.value, ast.Constant):
+        return False
+
+    def quiet(e):
+        return e is None or isinstance(e, (ast.Constant, ast.Name)) or (isinstance(e, (ast.Tuple, ast.List)) and all(quiet(x) for x in e.elts))
+
+    if isinstance(s, ast.Return) and quiet(s.value):
+        return False  # returning locals / constants (or a display of them) raises nothing
+    if isinstance(s, ast.Assign) and all(isinstance(t, ast.Name) for t in s.targets) and quiet(s.value):
         return False
     return True
 
@@ -2096,7 +2265,14 @@ def _counter_while(s: ast.While, fnode, env):
     first = ok and is_inc(body[0])
     last = ok and not first and is_inc(body[-1])
     rest = body[1:] if first else body[:-1]
-    if not (first or last) or var in _assigned_names(rest) or (last and _has(rest, (ast.Continue,))):
+    mid = None
+    if ok and not (first or last):
+        # the increment stands between other statements: those before it see the counter, those after it the counter plus one
+        pos = [k for k, x in enumerate(body) if is_inc(x)]
+        if len(pos) == 1 and not _has(body[:pos[0]], (ast.Continue,)):
+            mid = pos[0]
+            rest = body[:mid] + body[mid + 1:]
+    if not (first or last or mid is not None) or var in _assigned_names(rest) or (last and _has(rest, (ast.Continue,))):
         s._sa_counter = None
         return None
     # the counter must not be read once the loop is over (its final value differs between the two forms)
@@ -2105,9 +2281,23 @@ def _counter_while(s: ast.While, fnode, env):
         return None
     inside = {id(n) for n in ast.walk(s)}
     after = False
+    # reads after a later statement of the same block that assigns the counter afresh (`idx = 0` before the next loop) see that value, not this loop's
+    reinit_at = None
+    for blk in ast.walk(fnode):
+        for fld in ("body", "orelse", "finalbody"):
+            lst = getattr(blk, fld, None)
+            if isinstance(lst, list) and any(x is s for x in lst):
+                k0 = next(k for k, x in enumerate(lst) if x is s)
+                for x in lst[k0 + 1:]:
+                    if isinstance(x, ast.Assign) and any(isinstance(t_, ast.Name) and t_.id == var for t_ in x.targets) and not any(isinstance(n, ast.Name) and n.id == var for n in ast.walk(x.value)):
+                        reinit_at = (x.lineno, x.col_offset)
+                        break
+                    if any(isinstance(n, ast.Name) and n.id == var for n in ast.walk(x)):
+                        break
     for n in ast.walk(fnode):
         if isinstance(n, ast.Name) and n.id == var and isinstance(n.ctx, ast.Load) and id(n) not in inside and (n.lineno, n.col_offset) > (s.lineno, s.col_offset):
-            after = True
+            if reinit_at is None or (n.lineno, n.col_offset) < reinit_at:
+                after = True
     enclosing_loop = any(isinstance(n, (ast.For, ast.While)) and n is not s and id(s) in {id(x) for x in ast.walk(n)} for n in ast.walk(fnode))
     if after or (enclosing_loop and not _reinitialised_before(s, fnode, var)):
         s._sa_counter = None
@@ -2118,6 +2308,14 @@ def _counter_while(s: ast.While, fnode, env):
     it = ast.Call(func=ast.Name(id="range", ctx=ast.Load()), args=args, keywords=[])
     if last:
         tgt, nb = ast.Name(id=var, ctx=ast.Store()), list(rest)
+    elif mid is not None:
+        k = f"_{var}_k"
+        tgt = ast.Name(id=k, ctx=ast.Store())
+        seti = ast.Assign(targets=[ast.Name(id=var, ctx=ast.Store())], value=ast.Name(id=k, ctx=ast.Load()))
+        inc = ast.Assign(targets=[ast.Name(id=var, ctx=ast.Store())], value=ast.BinOp(left=ast.Name(id=k, ctx=ast.Load()), op=ast.Add(), right=ast.Constant(value=1)))
+        ast.copy_location(seti, body[0])
+        ast.copy_location(inc, body[mid])
+        nb = [seti] + list(body[:mid]) + [inc] + list(body[mid + 1:])
     else:
         k = f"_{var}_k"
         tgt = ast.Name(id=k, ctx=ast.Store())
